@@ -134,7 +134,9 @@ class FortranRegularExpressions:
     # `defined NAME` or `defined(NAME)`: the closing parenthesis belongs to the
     # operator only if it was opened by it, group 2 is the name
     DEFINED: Pattern = compile(r"defined[ ]*(\()?[ ]*([a-z_]\w*)[ ]*(?(1)\))", I)
-    PP_REGEX: Pattern = compile(r"[ ]*#[ ]*(if |ifdef|ifndef|else|elif|endif)", I)
+    PP_REGEX: Pattern = compile(
+        r"[ ]*#[ ]*(if(?=[ (!\t])|ifdef|ifndef|else|elif|endif)", I
+    )
     PP_DEF: Pattern = compile(
         r"[ ]*#[ ]*(define|undef|undefined)[ ]*(\w+)(\([ ]*([ \w,]*?)[ ]*\))?",
         I,
